@@ -168,6 +168,13 @@ func TestVerifChainBuild(t *testing.T) {
 			w.rules.MaxBlockUnits = fees.Dimensions{1 << 29, 1 << 29, 1 << 29, 1 << 29, 1 << 29}
 			w.rules.WindowTargetUnits = fees.Dimensions{1 << 40, 1 << 40, 1 << 40, 1 << 40, 1 << 40}
 		}
+		gapSc := s%8 == 5
+		if gapSc {
+			// gap scenario: the parent is 1-3 s old, so a block with transactions may be built (100 ms gap) but an empty
+			// one may not (60 s gap) - also when the mempool offered transactions and every one of them was dropped
+			w.rules.MinBlockGap = 100
+			w.rules.MinEmptyBlockGap = 60_000
+		}
 		prices := fees.Dimensions{1, 1, 1, 1, 1}
 		if r.Intn(3) == 0 {
 			prices = fees.Dimensions{uint64(r.Intn(3)), 1, uint64(r.Intn(3)), 1, uint64(r.Intn(2))}
@@ -232,6 +239,10 @@ func TestVerifChainBuild(t *testing.T) {
 			if bigPool {
 				ntx = 420 // more than one stream batch (256): the builder prefetches a second batch while executing the first
 			}
+			allDropped := gapSc && b%2 == 0
+			if allDropped {
+				ntx = 1 + r.Intn(4) // a non-empty mempool whose every transaction the builder has to drop
+			}
 			for i := 0; i < ntx; i++ {
 				now = time.Now().UnixMilli()
 				v := vTx{Sponsor: w.accounts[r.Intn(len(w.accounts))], MaxFee: 1 << 29,
@@ -255,6 +266,9 @@ func TestVerifChainBuild(t *testing.T) {
 					v.WrongCID = true
 				case 3:
 					v.MaxFee = uint64(r.Intn(600)) // possibly below the fee
+				}
+				if allDropped {
+					v.WrongCID = true
 				}
 				if len(poolTxs) > 0 && r.Intn(6) == 0 {
 					// the very same transaction again (mempool de-duplicates by id)
@@ -422,7 +436,7 @@ func TestVerifChainBuild(t *testing.T) {
 					txs = []*chain.Transaction{old}
 				}
 				proot, _ := parentView.GetMerkleRoot(ctx)
-				rsb, rerr := chain.NewStatelessBlock(eb.GetID(), eb.Tmstmp+int64(1+r.Intn(20)), eb.Hght+1, txs, proot, &block.Context{})
+				rsb, rerr := chain.NewStatelessBlock(eb.GetID(), eb.Tmstmp+w.rules.MinBlockGap+int64(1+r.Intn(20)), eb.Hght+1, txs, proot, &block.Context{})
 				if rerr != nil {
 					t.Fatal(rerr)
 				}
